@@ -36,12 +36,61 @@ theorem switchHdrOp_shape {hdr : Hdr} {s : St} {o : Op} {s' : St} (h : switchHdr
     exact ⟨sameStk_tickedOp _ _, _, rfl⟩
 
 theorem switch_pm (cx : Cx) (fuel : Nat) (env : Src.Env) (he : EnvOK cx env) (hdr : Hdr) (cs : Cases)
-    (run : Nat → List BP → SwSt → M SwSt) (hn : nameOK hdr.name = true) (hne : Beh.endsFlow hdr.name = false) (hcs : cs ≠ .nil)
-    (hdef : countDefaults cs ≤ 1) (hrun : CasesC cx fuel hdr.name cs run) :
+    (run : Nat → List BP → SwSt → M SwSt) (hn : nameOK hdr.name = true) (hne : Beh.endsFlow hdr.name = false)
+    (hdef : countDefaults cs ≤ 1) (hrun : CasesC cx fuel hdr.name true cs run) :
     PM cx (switchOf hdr cs run) (fun k b => Src.tr fuel [] env (.switch (hdrEv hdr) (toSrcCases hdr.name cs)) k b) env := by
   intro s items s' h
   cases cs with
-  | nil => exact absurd rfl hcs
+  | nil =>
+    -- a switch without cases is its header operation
+    simp only [switchOf, bind_ok, tickLbl_ok, pure_ok] at h
+    obtain ⟨defStart, s1, h1, endL, s2, h2, sop, s3, h3, h4⟩ := h
+    simp only [Prod.mk.injEq] at h1 h2 h4
+    obtain ⟨rfl, rfl⟩ := h1
+    obtain ⟨rfl, rfl⟩ := h2
+    obtain ⟨rfl, rfl⟩ := h4
+    obtain ⟨e3, o0, rfl⟩ := switchHdrOp_shape h3
+    have hstk : SameStk s s' := ((sameStk_tickedLbl s 1).trans (sameStk_tickedLbl _ 1)).trans e3
+    simp only [nameOK, Bool.and_eq_true, Bool.not_eq_true'] at hn
+    have htr : ∀ k b, Src.tr fuel [] env (.switch (hdrEv hdr) (toSrcCases hdr.name .nil)) k b =
+        (((b.push (.halt (evInvalid "switch default"))).1.set (tbl b).length (.silent k)).push (.emit (hdrEv hdr) (tbl b).length)) := by
+      intro k b
+      rw [tr_switch fuel env he]
+      simp only [toSrcCases, trCases_nil, dfltNode]
+    have hgrow : ∀ k b, Grow cx.Z b (Src.tr fuel [] env (.switch (hdrEv hdr) (toSrcCases hdr.name .nil)) k b).1 := by
+      intro k b
+      rw [htr]
+      exact ((Grow.push b _).set_ge (Nat.le_refl _) _).trans (Grow.push _ _)
+    have hfalls : falls [LItem.op ⟨o0, hdr.name, hdr.params⟩] = true := by
+      have hj : isJump hdr.name = false := by
+        have := hn.2; simp only [Bool.or_eq_false_iff] at this; exact this.1
+      have : Gen.opsEndFlow.contains hdr.name = false := by rw [gen_ends_eq hdr.name hj]; exact hne
+      have h2 : ¬ hdr.name ∈ Gen.opsEndFlow := by simpa using this
+      simp [falls, needsEndJump, Comp.endsFlow, endsName, h2]
+    refine ⟨hstk.1, hstk.2, hstk.3, by simp [lastNotCtx, isCtxL, hn.1], ?_, by intro h0; simp at h0, ?_, hgrow, ?_⟩
+    · intro x hx root e; simp at hx; subst hx; cases e
+    · intro l hl; simp [loneJump] at hl
+    intro r i0 hp hpre k b hag m j _ _ hcont
+    rw [htr] at hag ⊢
+    have hit0 : itemAt cx.rs ⟨r, i0⟩ = some (.op ⟨o0, hdr.name, hdr.params⟩) := by simpa using hp.item (d := 0) rfl
+    have hstep := lab_op hit0 hn.2
+    simp only [hne, Bool.false_and, Bool.false_eq_true, if_false] at hstep
+    have hev : (⟨hdr.name, convParams hdr.params⟩ : Ev) = hdrEv hdr := rfl
+    rw [hev, LPos.next_eq r i0 (i0 + 1) rfl] at hstep
+    obtain ⟨a1, a2⟩ := tbl_push ((b.push (.halt (evInvalid "switch default"))).1.set (tbl b).length (.silent k)) (.emit (hdrEv hdr) (tbl b).length)
+    obtain ⟨p1, _⟩ := tbl_push b (.halt (evInvalid "switch default"))
+    have hl3 : (tbl ((b.push (.halt (evInvalid "switch default"))).1.set (tbl b).length (.silent k))).length = (tbl b).length + 1 := by
+      rw [tbl_set, p1]; simp
+    have hNe : cx.N[(tbl b).length + 1]? = some (.emit (hdrEv hdr) (tbl b).length) := by
+      rw [hag.2 _ (by omega) (by rw [a1]; simp [hl3]), a1, ← hl3]; simp
+    have hNt : cx.N[(tbl b).length]? = some (.silent k) := by
+      rw [hag.2 _ (Nat.le_refl _) (by rw [a1]; simp [hl3]; omega), a1, List.getElem?_append_left (by rw [hl3]; omega), tbl_set,
+        List.getElem?_set_self (by rw [p1]; simp)]
+    rw [a2, hl3]
+    refine ⟨R2.emit hstep (nodeStep_of hNe) (E.silR (nodeStep_of hNt) (by simpa using (hcont hfalls).1)), ?_⟩
+    refine LabExport.same (fun i hi => ?_)
+    rw [a1, List.getElem?_append_left (by rw [hl3]; omega), tbl_set, List.getElem?_set_ne (by omega), p1,
+      List.getElem?_append_left hi]
   | cons d0 n0 ps0 b0 r0 =>
   simp only [switchOf, bind_ok, tickLbl_ok] at h
   obtain ⟨defStart, s1, h1, endL, s2, h2, sop, s3, h3, h4⟩ := h
@@ -77,7 +126,7 @@ theorem switch_pm (cx : Cx) (fuel : Nat) (env : Src.Env) (he : EnvOK cx env) (hd
   simp only [pure_ok, Prod.mk.injEq] at h8
   obtain ⟨rfl, rfl⟩ := h8
   have hwait' : rr.waiting = [] := by simpa using hwait
-  have hS := hsem hwait'
+  have hS := hsem hwait' False (fun _ hf => hf)
   simp only [wSrc] at hS
   have hstk : SameStk s s' := ((((sameStk_tickedLbl s 1).trans (sameStk_tickedLbl _ 1)).trans e3).trans e5).trans (e6.trans e7)
   have hL5 : s5.loops = s.loops := (((((sameStk_tickedLbl s 1).trans (sameStk_tickedLbl _ 1)).trans e3).trans e5).trans e6).1
